@@ -194,15 +194,15 @@ def run(tier):
                 'all distance classes). Each expansion is executed by rvref.step from 14 register files and compared '
                 'with the documented function (registers, next pc, link, scratch, events). non-trivial = pseudo with '
                 'rd != x0 or a control transfer (systematic: counted per instance, all distinct by construction; '
-                'programs: distinct by (source, mode))' % len(LI_UPPERS))
+                'programs: distinct by (source, mode))' % (len(LI_UPPERS) if tier == 'thorough' else 6))
     jobs = [('regs', i, i + 1, tier) for i in range(len(ALL27))]
     ups = len(LI_UPPERS) if tier == 'thorough' else 6
     jobs += [('li', i, i + 1, tier) for i in range(ups)]
     nd = len(S.Builder.DIST['call'])
     jobs += [('far', i, i + 1, tier) for i in range(nd)]
     jobs += [('preset', i, i + 1, tier) for i in range(4)]
+    progcheck.run_sharded(chk, PROP, PROFILE, N[tier], 'judge', __name__)     # (first, so that its samples are kept)
     chk.merge(env.run_shards(shard_systematic, jobs))
-    progcheck.run_sharded(chk, PROP, PROFILE, N[tier], 'judge', __name__)
     _prog.check_vacuity(chk)
     chk.assumptions = ['rvref.step is the execution semantics', 'documented effect table transcribed from docs/instruction_reference.rst']
     return chk.finish()
